@@ -121,6 +121,9 @@ func discharge(o *Oblig, dir string, quickSecs, fullSecs int) {
 		}
 		return
 	}
+	if o.ShortBudget && fullSecs > 8 {
+		fullSecs = 8
+	}
 	res, text, el := runSolver(context.Background(), solvers[0], file, quickSecs)
 	if decide(res, solvers[0].name, text, el) {
 		return
